@@ -405,6 +405,21 @@ theorem reinsert_outside_contract (h : List Op) (id t0 t : Nat) (hp : get (after
   obtain ⟨a, b, c, _, d, e⟩ := reinsert_present (inv_after h) hl t
   exact ⟨a, b, c, d, e, inv_insert (inv_after h) id t, by simp [insertPanics, State.present, hl], by simp [insertPanics]⟩
 
+/-! ### parameters the property does not depend on (coverage audit) -/
+
+/-- Who is sent to and which results come back do not depend on the path, the body or the format of a
+broadcast, and the registry state after any history does not depend on what the sinks answer. (Keys
+and peer ids are opaque throughout: every theorem of this file quantifies over arbitrary `String` keys
+and `Nat` ids and uses only their decidable equality.) -/
+theorem broadcast_receivers_independent_of_payload (s : State) (answer : Handle → SendResult)
+    (p1 p2 : String) (f1 f2 : Nat) (b1 b2 : Bytes) :
+    (broadcast s p1 f1 b1 answer).1.map (·.to) = (broadcast s p2 f2 b2 answer).1.map (·.to) ∧
+    (broadcast s p1 f1 b1 answer).2 = (broadcast s p2 f2 b2 answer).2 := by
+  simp [broadcast, List.map_map, Function.comp]
+
+theorem state_independent_of_sink_answers (a b : Handle → SendResult) (h : List Op) :
+    (run a State.empty h).1 = (run b State.empty h).1 := run_state_indep_of_answers a b State.empty h
+
 /-! ### source forms -/
 
 /-- The branches of `alias`, `remove`, `key_for`, `get_by` in the current source have the forms the model
